@@ -5,7 +5,7 @@ import lib
 SPEC = {
     'rule': 'random well-formed layouts (0-4 primaries in any slot, extended 0x05/0x0F with 0..6 logicals, gaps, '
             'empty first EBR slots; GPT entry sizes 128/256/512, 1..140 entries, sparse slots, table LBA anywhere, '
-            'optional protective MBR; S in {512,4096}) -> image from the EXTRACTED build -> nobodd DiskImage; '
+            'sector 0 zeros / protective MBR / hybrid MBR / noise; S in {512,4096}) -> image from the EXTRACTED build -> nobodd DiskImage; '
             'compared with the layout (oracle) and with the extracted parser (correspondence): style, len, keys, '
             'window offset/length/bytes, type, label, KeyError probes. Plus every single-field corruption of the '
             'GPT and MBR headers (with and without re-computed CRC), truncated images, CRC-32 vs binascii. '
@@ -30,7 +30,9 @@ SPEC = {
         'C12_reject_bad': 'full: GPT rejected and MBR rejected gives ValueError from DiskImage.partitions, GPT tried first',
         'C12_reject_corrupt_covered_partial': 'partial: a corrupted CRC-covered field is rejected iff CRC-32 separates the headers '
                                               '(stated with that hypothesis; covered by correspondence)',
-        'C12_crc32_check': 'check vector 0xCBF43926 for "123456789" (vm_compute); general agreement with binascii by correspondence',
+        'C12_crc32_check': 'check vector 0xCBF43926 for "123456789" (vm_compute) and re-packing an unpacked header never fails; '
+                           'general agreement with binascii by correspondence',
+        'C12_short_image_struct_error': 'full: an image shorter than S+92 bytes gives struct.error (modelled as StructError), not ValueError',
     },
     'assumptions': [
         'sector size is a positive multiple of 512 (the harness uses 512 and 4096)',
@@ -125,6 +127,26 @@ def rand_mbr(rng, S, force=None, tiny=False):
     return dict(kind='mbr', sig=rng.randrange(1 << 32), tail=rng.choice([0, 0, 1, 3]), slots=slots)
 
 
+def protective_sector(size):
+    return boot_sector(0, part_entry(0xEE, 1, size), EMPTY, EMPTY, EMPTY)
+
+
+def hybrid_sector(rng):
+    return boot_sector(rng.randrange(1 << 32), part_entry(0xEE, 1, rng.randrange(1, 50)),
+                       part_entry(rng.choice([0x0c, 0x83]), rng.randrange(2, 8), rng.randrange(1, 4)), EMPTY, EMPTY)
+
+
+def rand_sector0(rng):
+    kind = rng.choice(['zeros', 'protective', 'protective', 'hybrid', 'noise'])
+    if kind == 'zeros':
+        return bytes(512)
+    if kind == 'protective':
+        return protective_sector(rng.choice([1, 100, (1 << 32) - 1, rng.randrange(1, 1 << 32)]))
+    if kind == 'hybrid':
+        return hybrid_sector(rng)
+    return bytes(rng.randrange(256) for _ in range(510)) + b'\x00\x00'   # no boot signature
+
+
 def rand_gpt(rng, S, count=None, tiny=False):
     k = rng.choice([0, 0, 0, 1, 2])
     esize = 128 << k
@@ -151,7 +173,7 @@ def rand_gpt(rng, S, count=None, tiny=False):
     tlba = rng.choice([2, 2, 3, rng.randrange(2, 10 if S > 512 else 40)])
     l = dict(kind='gpt', k=k, tlba=tlba, disk_guid=bytes(rng.randrange(256) for _ in range(16)), table_crc=0,
              backup=rng.randrange(1 << 40), first_usable=rng.randrange(1 << 20), last_usable=rng.randrange(1 << 40),
-             pmbr=rng.choice([None, None, rng.randrange(1, 1 << 32)]), tail=rng.choice([0, 0, 1, 2]), entries=entries)
+             sector0=rand_sector0(rng), tail=rng.choice([0, 0, 1, 2]), entries=entries)
     l['table_crc'] = binascii.crc32(py_table(l)) & 0xffffffff
     return l
 
@@ -171,7 +193,7 @@ def wire_layout(l):
     ents = [[] if e is None else [e['type'], e['guid'], e['first'], e['last'], e['flags'], list(e['label'])]
             for e in l['entries']]
     return [1, l['k'], l['tlba'], l['disk_guid'], l['table_crc'], l['backup'], l['first_usable'], l['last_usable'],
-            [] if l['pmbr'] is None else [l['pmbr']], l['tail'], ents]
+            l['sector0'], l['tail'], ents]
 
 
 # ---- python mirror of coq/Disk/Build.v (cross-checked against the extracted build on every case;
@@ -253,7 +275,7 @@ def py_build(S, l):
     ts = (count * esize + S - 1) // S
     tend = l['tlba'] + ts
     need = max([e['last'] + 1 for e in l['entries'] if e] + [0])
-    sec0 = boot_sector(0, part_entry(0xEE, 1, l['pmbr']), EMPTY, EMPTY, EMPTY) if l['pmbr'] is not None else bytes(512)
+    sec0 = l['sector0']
     h0 = py_header(l, 0)
     hdr = py_header(l, binascii.crc32(h0) & 0xffffffff)
     return (sec0 + fill(S - 512, 512) + hdr + bytes(S - 92) + fill(S * (l['tlba'] - 2), S * 2)
@@ -579,10 +601,10 @@ def corrupt_values(rng, name, old):
     return sorted(set(o for o in outs if 0 <= o < (1 << width) and o != old))
 
 
-def gpt_corruptions(ctx, G, S, l):
+def gpt_corruptions(ctx, G, S, l, mbr_valid=False):
+    """mbr_valid: sector 0 holds a valid (hybrid) MBR, so a rejected GPT falls back to it: no oracle"""
     raw = G.build(S, l)
     hdr = list(struct.unpack_from(GPT_FMT, raw, S))
-    sector0_valid_mbr = False   # built GPT images carry zeros or a protective MBR in sector 0
     for i, name in enumerate(GPT_FIELDS):
         for v in corrupt_values(ctx.rng, name, hdr[i]):
             h = list(hdr); h[i] = v
@@ -603,7 +625,9 @@ def gpt_corruptions(ctx, G, S, l):
                         expect = 'ValueError'
                 elif name in ('signature', 'revision', 'header_size'):
                     expect = 'ValueError'
-                image_case(ctx, G, S, img, f'gpt-corrupt{"-recrc" if refix else ""}:{name}={v!r}', expect,
+                if mbr_valid:
+                    expect = None
+                image_case(ctx, G, S, img, f'gpt-corrupt{"-hybrid" if mbr_valid else ""}{"-recrc" if refix else ""}:{name}={v!r}', expect,
                            f'GPT header field {name} corrupted to {v!r}{" (checksum recomputed)" if refix else ""}, no valid MBR in sector 0')
 
 
@@ -700,8 +724,12 @@ def run(ctx, build):
     for r in range(3 if deep else 1):
         for S in S_CHOICES:
             l = rand_gpt(rng, S, count=rng.choice([4, 8, 12]), tiny=True)
-            l['pmbr'] = [None, 77][(r + (S > 512)) % 2]
+            l['sector0'] = [bytes(512), protective_sector(77)][(r + (S > 512)) % 2]
             gpt_corruptions(ctx, G, S, l)
+            if S == 512 or deep:
+                l = rand_gpt(rng, S, count=4, tiny=True)
+                l['sector0'] = hybrid_sector(rng)
+                gpt_corruptions(ctx, G, S, l, mbr_valid=True)
             m = rand_mbr(rng, S, force='ext', tiny=True)
             while not py_wf(m):
                 m = rand_mbr(rng, S, force='ext', tiny=True)
@@ -746,6 +774,7 @@ def replay(ctx, obj):
             return bytes.fromhex(x['hex']) if isinstance(x, dict) and 'hex' in x else x
         if l['kind'] == 'gpt':
             l['disk_guid'] = unhex(l['disk_guid'])
+            l['sector0'] = unhex(l['sector0'])
             for e in l['entries']:
                 if e:
                     e['type'], e['guid'] = unhex(e['type']), unhex(e['guid'])
